@@ -1385,7 +1385,7 @@ static void rtp_padding_case(Src& s, Ctx& ctx) {
         const LayerView lv1 = view_layer(*p);
         for (size_t f = 0; f < lv0.fields.size() && f < lv1.fields.size(); ++f) {
             const std::string& nm = lv0.fields[f].name;
-            if (nm == "padding_size" || nm == "padding_bit" || nm == "trailer_size") continue;
+            if (nm == "padding_size" || nm == "padding_bit" || lv0.fields[f].kind == 'S') continue;   // size queries follow the trailer (checked above / below)
             VCHECK(ctx, lv0.fields[f].value == lv1.fields[f].value, sig + ":neighbour-changed:" + nm, hist << " changed " << nm << " from " << lv0.fields[f].value << " to " << lv1.fields[f].value);
         }
         Bytes after = p->serialize();
